@@ -92,3 +92,167 @@ Theorem C14_cross_decode : forall HO, hash_ok HO ->
               Fsm.r_enc HO st = rest).
 Proof. exact e2e_cross_decode. Qed.
 Print Assumptions C14_cross_decode.
+
+(* ======== Gap audit (proofs in Proofs/GapC14.v, Proofs/GapC14Enc.v, Proofs/GapC14Val.v) ======== *)
+From BaoV Require Import Model.Sync Model.Fsm Spec.PlanSpec Proofs.DecRanges Proofs.EncThm.
+From BaoV Require Import Proofs.RangeTrunc Proofs.GapC14 Proofs.GapC14Enc Proofs.GapC14Val.
+Local Open Scope N_scope.
+
+(* ---- canonicalisation: for ALL blob sizes (the statements above carry an unused bound size <= 2^63) ---- *)
+Theorem C14_truncate_sel_any_size : forall q size c,
+  wf_ranges q = true -> sel (truncate_ranges q size) size c = sel q size c.
+Proof. exact truncate_sel. Qed.
+Print Assumptions C14_truncate_sel_any_size.
+
+Theorem C14_truncate_idem_any_size : forall q size,
+  wf_ranges q = true -> truncate_ranges (truncate_ranges q size) size = truncate_ranges q size.
+Proof. exact truncate_idem. Qed.
+Print Assumptions C14_truncate_idem_any_size.
+
+(* ---- the decoders depend on the query only through the selection: on EVERY stream and for every root
+   (C14_cross_decode above is about the honest stream only) ---- *)
+(* the plan of the decoders (ResponseIter over the canonicalised query) *)
+Theorem C14_response_iter_of_selection : forall size bs q1 q2,
+  size <= 2 ^ 63 -> bs <= 10 -> wf_ranges q1 = true -> wf_ranges q2 = true ->
+  (forall c, sel q1 size c = sel q2 size c) ->
+  response_iter (mkTree size bs) (truncate_ranges q1 size) = response_iter (mkTree size bs) (truncate_ranges q2 size).
+Proof. exact response_iter_of_selection. Qed.
+Print Assumptions C14_response_iter_of_selection.
+
+(* sync DecodeResponseIter: same items, same outcome, same pending hash stack, same unread stream *)
+Theorem C14_dec_run_of_selection : forall (HO : hops) (size bs : N) (q1 q2 : ranges),
+  size <= 2 ^ 63 -> bs <= 10 -> wf_ranges q1 = true -> wf_ranges q2 = true ->
+  (forall c, sel q1 size c = sel q2 size c) ->
+  forall (root : hash HO) (stream : bytes HO),
+  fst (dec_run HO (dec_new HO root (mkTree size bs) stream q1)) = fst (dec_run HO (dec_new HO root (mkTree size bs) stream q2)) /\
+  d_stack HO (snd (dec_run HO (dec_new HO root (mkTree size bs) stream q1))) =
+  d_stack HO (snd (dec_run HO (dec_new HO root (mkTree size bs) stream q2))) /\
+  d_enc HO (snd (dec_run HO (dec_new HO root (mkTree size bs) stream q1))) =
+  d_enc HO (snd (dec_run HO (dec_new HO root (mkTree size bs) stream q2))).
+Proof. exact dec_run_of_selection. Qed.
+Print Assumptions C14_dec_run_of_selection.
+
+(* fsm ResponseDecoder *)
+Theorem C14_rd_run_of_selection : forall (HO : hops) (size bs : N) (q1 q2 : ranges),
+  size <= 2 ^ 63 -> bs <= 10 -> wf_ranges q1 = true -> wf_ranges q2 = true ->
+  (forall c, sel q1 size c = sel q2 size c) ->
+  forall (root : hash HO) (stream : bytes HO),
+  fst (rd_run HO (rd_new HO root q1 (mkTree size bs) stream)) = fst (rd_run HO (rd_new HO root q2 (mkTree size bs) stream)) /\
+  Fsm.r_stack HO (snd (rd_run HO (rd_new HO root q1 (mkTree size bs) stream))) =
+  Fsm.r_stack HO (snd (rd_run HO (rd_new HO root q2 (mkTree size bs) stream))) /\
+  Fsm.r_enc HO (snd (rd_run HO (rd_new HO root q1 (mkTree size bs) stream))) =
+  Fsm.r_enc HO (snd (rd_run HO (rd_new HO root q2 (mkTree size bs) stream))).
+Proof. exact rd_run_of_selection. Qed.
+Print Assumptions C14_rd_run_of_selection.
+
+(* decode_ranges, sync and fsm: same result, same target file, same outboard - whatever the stream, the target
+   and the store *)
+Theorem C14_decode_ranges_of_selection : forall (HO : hops) (size bs : N) (q1 q2 : ranges),
+  size <= 2 ^ 63 -> bs <= 10 -> wf_ranges q1 = true -> wf_ranges q2 = true ->
+  (forall c, sel q1 size c = sel q2 size c) ->
+  forall (stream target : bytes HO) (ob : outboard HO),
+  ob_tree ob = mkTree size bs ->
+  fst (decode_ranges HO stream q1 target ob) = fst (decode_ranges HO stream q2 target ob) /\
+  fst (decode_ranges_fsm HO stream q1 target ob) = fst (decode_ranges_fsm HO stream q2 target ob).
+Proof. exact decode_ranges_of_selection. Qed.
+Print Assumptions C14_decode_ranges_of_selection.
+
+(* ---- cross decoding with decode_ranges (sync and fsm): the honest encoding made for q1 is applied in full by
+   decode_ranges called with q2 (only the decoder's query has to be well formed and non-empty) ---- *)
+Theorem C14_cross_decode_ranges : forall HO, hash_ok HO ->
+  forall (data : bytes HO) (bs : N) (q1 q2 : ranges),
+  blen HO data <= 2 ^ 63 -> bs <= 10 -> wf_ranges q2 = true -> q2 <> [] ->
+  (forall c, sel q1 (blen HO data) c = sel q2 (blen HO data) c) ->
+  forall (rest target : bytes HO) (sink : outboard HO),
+  ob_root sink = root_hash HO data -> ob_tree sink = mkTree (blen HO data) bs ->
+  let a := apply_items HO (honest HO data bs q1) target sink in
+  (exists st', decode_ranges HO (flat HO (honest HO data bs q1) ++ rest) q2 target sink =
+               (ranges_result (a_res HO a) Finished, a_target HO a, a_ob HO a, st')) /\
+  (exists st', decode_ranges_fsm HO (flat HO (honest HO data bs q1) ++ rest) q2 target sink =
+               (ranges_result (a_res HO a) Finished, a_target HO a, a_ob HO a, st')).
+Proof. exact cross_decode_ranges. Qed.
+Print Assumptions C14_cross_decode_ranges.
+
+(* ---- requester and provider need not agree on the representation: what the validating encoders (sync / fsm) of a
+   provider produce for q1, from a store that serves the blob's pairs on the nodes the encoder visits, is the honest
+   encoding for q2, which decode_ranges (sync / fsm) of a requester that asked with q2 applies in full ---- *)
+Theorem C14_provider_requester : forall (HO : hops), hash_ok HO ->
+  forall (data : bytes HO) (bs : N) (q1 q2 : ranges) (ob : outboard HO),
+  blen HO data <= 2 ^ 63 -> bs <= 10 -> wf_ranges q1 = true -> wf_ranges q2 = true -> q2 <> [] ->
+  (forall c, sel q1 (blen HO data) c = sel q2 (blen HO data) c) ->
+  ob_tree ob = mkTree (blen HO data) bs -> ob_root ob = root_hash HO data ->
+  (forall nd, In nd (enc_nodes (blen HO data) bs q1) -> stored_ok HO data ob nd /\ stored_ok_fsm HO data ob nd) ->
+  encode_ranges_validated HO data ob q1 = (Ok tt, flat HO (honest HO data bs q2)) /\
+  encode_ranges_validated_fsm HO data ob q1 = (Ok tt, flat HO (honest HO data bs q2)) /\
+  forall (rest target : bytes HO) (sink : outboard HO),
+    ob_root sink = root_hash HO data -> ob_tree sink = mkTree (blen HO data) bs ->
+    let a := apply_items HO (honest HO data bs q2) target sink in
+    (exists st', decode_ranges HO (flat HO (honest HO data bs q2) ++ rest) q2 target sink =
+                 (ranges_result (a_res HO a) Finished, a_target HO a, a_ob HO a, st')) /\
+    (exists st', decode_ranges_fsm HO (flat HO (honest HO data bs q2) ++ rest) q2 target sink =
+                 (ranges_result (a_res HO a) Finished, a_target HO a, a_ob HO a, st')).
+Proof. exact provider_requester. Qed.
+Print Assumptions C14_provider_requester.
+
+(* ---- the encoders of the model (not only the specification `honest`) are functions of the selection ---- *)
+(* with min level 0 the chunk plan of a RAW (not canonicalised) query is a function of the selection: no size bound *)
+Theorem C14_chunk_plan_of_selection : forall size bs q1 q2, wf_ranges q1 = true -> wf_ranges q2 = true ->
+  (forall c, sel q1 size c = sel q2 size c) -> pre_plan size bs 0 q1 = pre_plan size bs 0 q2.
+Proof. exact pre_plan0_of_selection. Qed.
+Print Assumptions C14_chunk_plan_of_selection.
+
+Theorem C14_chunk_iter_of_selection : forall size bs q1 q2, size <= 2 ^ 63 -> bs <= 10 ->
+  wf_ranges q1 = true -> wf_ranges q2 = true -> (forall c, sel q1 size c = sel q2 size c) ->
+  map without_ranges (pre_order_chunks_iter (mkTree size bs) q1 0) = map without_ranges (pre_order_chunks_iter (mkTree size bs) q2 0).
+Proof. exact chunk_iter0_of_selection. Qed.
+Print Assumptions C14_chunk_iter_of_selection.
+
+(* the non-validating encoders (they do not canonicalise): EVERY store, EVERY data file *)
+Theorem C14_encode_ranges_of_selection : forall (HO : hops) (data : bytes HO) (ob : outboard HO) (q1 q2 : ranges),
+  tsize (ob_tree ob) <= 2 ^ 63 -> tbs (ob_tree ob) <= 10 -> wf_ranges q1 = true -> wf_ranges q2 = true ->
+  (forall c, sel q1 (tsize (ob_tree ob)) c = sel q2 (tsize (ob_tree ob)) c) ->
+  encode_ranges HO data ob q1 = encode_ranges HO data ob q2 /\
+  encode_ranges_fsm HO data ob q1 = encode_ranges_fsm HO data ob q2.
+Proof. exact encode_ranges_of_selection. Qed.
+Print Assumptions C14_encode_ranges_of_selection.
+
+(* the validating encoders: any pairs and any data file data' (partial, corrupted, failing loads), on a store that
+   carries the tree and the root of a blob `data`.  C04_function_of_selection needs every visited pair intact. *)
+Theorem C14_validated_encoders_of_selection : forall (HO : hops), hash_ok HO ->
+  forall (data : bytes HO) (bs : N) (q1 q2 : ranges),
+  wf_ranges q1 = true -> wf_ranges q2 = true -> blen HO data <= 2 ^ 63 -> bs <= 10 ->
+  (forall c, sel q1 (blen HO data) c = sel q2 (blen HO data) c) ->
+  forall (ob : outboard HO) (data' : bytes HO),
+  ob_tree ob = mkTree (blen HO data) bs -> ob_root ob = root_hash HO data ->
+  encode_ranges_validated HO data' ob q1 = encode_ranges_validated HO data' ob q2 /\
+  encode_ranges_validated_fsm HO data' ob q1 = encode_ranges_validated_fsm HO data' ob q2.
+Proof. exact validated_encoders_of_selection. Qed.
+Print Assumptions C14_validated_encoders_of_selection.
+
+(* ---- the validators (they canonicalise the query too): EVERY store and data file, sync and fsm ---- *)
+Theorem C14_validators_of_selection : forall (HO : hops) (ob : outboard HO) (d : bytes HO) (q1 q2 : ranges),
+  tsize (ob_tree ob) <= 2 ^ 63 -> tbs (ob_tree ob) <= 10 -> wf_ranges q1 = true -> wf_ranges q2 = true ->
+  (forall c, sel q1 (tsize (ob_tree ob)) c = sel q2 (tsize (ob_tree ob)) c) ->
+  valid_ranges HO ob d q1 = valid_ranges HO ob d q2 /\
+  valid_outboard_ranges HO ob q1 = valid_outboard_ranges HO ob q2 /\
+  valid_ranges_fsm HO ob d q1 = valid_ranges_fsm HO ob d q2 /\
+  valid_outboard_ranges_fsm HO ob q1 = valid_outboard_ranges_fsm HO ob q2.
+Proof. exact validators_of_selection. Qed.
+Print Assumptions C14_validators_of_selection.
+
+(* non-vacuity: two different boundary lists, different also after canonicalisation, with the same selection; their
+   raw chunk plans differ in the ranges fields only; hash_ok is inhabited *)
+Theorem C14_gap_nonvacuous :
+  4000 <= 2 ^ 63 /\ wf_ranges [4] = true /\ wf_ranges [3] = true /\ [3] <> @nil N /\
+  (forall c, sel [4] 4000 c = sel [3] 4000 c) /\
+  truncate_ranges [4] 4000 <> truncate_ranges [3] 4000 /\
+  response_iter (mkTree 4000 1) (truncate_ranges [4] 4000) = response_iter (mkTree 4000 1) (truncate_ranges [3] 4000) /\
+  (exists HO, hash_ok HO).
+Proof. exact gap_c14_nonvacuous. Qed.
+Print Assumptions C14_gap_nonvacuous.
+
+Theorem C14_gap_enc_nonvacuous :
+  pre_order_chunks_iter (mkTree 4000 1) [4] 0 <> pre_order_chunks_iter (mkTree 4000 1) [3] 0 /\
+  map without_ranges (pre_order_chunks_iter (mkTree 4000 1) [4] 0) = map without_ranges (pre_order_chunks_iter (mkTree 4000 1) [3] 0).
+Proof. exact gap_c14_enc_nonvacuous. Qed.
+Print Assumptions C14_gap_enc_nonvacuous.
